@@ -115,7 +115,9 @@ var c02retG retained
 var c02held, c02heldCopy []byte
 var c02heldG, c02heldGCopy []byte
 
-var c02strings = []string{"", "a", "name", "Zürich", "日本", "with \"quotes\"", "back\\slash", "tab\there", "line\nbreak", "<html>&amp;", "emoji 😀", " sep", "nul\\u0000esc", "0", "null", "true", "unit\x1fsep", "bell\a", "del\x7f"}
+var c02strings = []string{"", "a", "name", "Zürich", "日本", "with \"quotes\"", "back\\slash", "tab\there", "line\nbreak", "<html>&amp;", "emoji 😀", " sep", "nul\\u0000esc", "0", "null", "true", "unit\x1fsep", "bell\a", "del\x7f",
+	// strings that spell a value of another type a codec may know (an ObjectID in hex, a date, numbers): still strings
+	"507F1F77BCF86CD799439011", "507f1f77bcf86cd799439011", "0123456789ABCDEFabcdef00", "2020-01-02T03:04:05Z", "1e5", "0x1F", "-0", "1.0", "NaN", " 12 ", "$oid", "12345678901234567890", "AAECAwQ="}
 var c02keys = []string{"name", "kind", "id", "a", "b", "ünï", "key with space", "", "Type", "properties", "geometry", "coordinates", "x.y", "$dollarless", "unit\x1fsep", "del\x7f", "bell\a"}
 
 func c02value(r *h.Rand, depth int) interface{} {
@@ -275,6 +277,22 @@ func init() {
 				c.Fail("", "a Geometry value with Type and Coordinates filled in by hand marshals differently from NewGeometry's", map[string]interface{}{"case": d(), "by_hand": string(d2), "new_geometry": string(data), "err": sv(err)})
 			}
 			c.Eval()
+		}
+		if want != nil {
+			// the value handed to encoding/json not through a pointer (a field of a record passed by value, a map value,
+			// json.Marshal(*g)): the pointer method MarshalJSON is not used there, the document is still the geometry's
+			byValue, err := json.Marshal(*geojson.NewGeometry(g))
+			if len(data)%2 == 0 {
+				var wrapped []byte
+				wrapped, err = json.Marshal(map[string]interface{}{"g": *geojson.NewGeometry(g)})
+				if err == nil && len(wrapped) > 6 {
+					byValue = wrapped[5 : len(wrapped)-1]
+				}
+			}
+			c.Eval()
+			if err != nil || !bytes.Equal(byValue, data) {
+				c.Fail("", "a Geometry marshalled by value is a different document from the one marshalled through a pointer", map[string]interface{}{"case": d(), "by_value": c02trunc(byValue), "by_pointer": c02trunc(data), "err": sv(err)})
+			}
 		}
 		var generic interface{}
 		json.Unmarshal(data, &generic)
